@@ -18,8 +18,12 @@ fail() { echo "BUILD-FAILED stage=$1" ; tail -40 $log; exit 3; }
 $B/gotables /repo $B/Tables.v.new >>$log 2>&1 || { echo "BUILD-FAILED stage=gotables"; cat $log; exit 4; }
 cmp -s $B/Tables.v.new $V/coq/gen/Tables.v || cp $B/Tables.v.new $V/coq/gen/Tables.v
 
+# 1b. the C06 typing table (deterministic generator)
+python3 $V/tools/c06table.py --coq $B/C06Table.v.new >>$log 2>&1 || fail c06table
+cmp -s $B/C06Table.v.new $V/coq/gen/C06Table.v || cp $B/C06Table.v.new $V/coq/gen/C06Table.v
+
 # 2. Coq (full .vo build)
-( cd $V/coq && { [ -f Makefile ] && [ Makefile -nt _CoqProject ] || coq_makefile -f _CoqProject -o Makefile; } && timeout 3000 make -j16 ) >>$log 2>&1 || { echo "BUILD-FAILED stage=coq"; grep -B2 -A12 "Error" $log | head -60; exit 5; }
+( cd $V/coq && { [ -f Makefile ] && [ Makefile -nt _CoqProject ] || coq_makefile -f _CoqProject -o Makefile; } && timeout 2400 make -j16 ) >>$log 2>&1 || { echo "BUILD-FAILED stage=coq"; grep -B2 -A12 "Error" $log | head -60; exit 5; }
 
 # 3. extraction + OCaml driver
 mkdir -p $V/ocaml/extracted
